@@ -65,6 +65,29 @@ Theorem C20_notify_keys_independent : forall (m : smap) (k k' v : bytes) (mx : N
 Proof. exact update_other_key. Qed.
 Print Assumptions C20_notify_keys_independent.
 
+(* ---- monitor-loop level: one poll of the agent's aggregate status file = one observation ---- *)
+
+(* Error is reported only after at least 20 consecutive failed POLLS (unreadable file or version mismatch) *)
+Theorem C20_poll_error_needs_20 : forall ps : list poll,
+  cur (state_after_polls ss_new ps) = Error ->
+  (20 <= length ps)%nat /\ Forall (fun p => poll_ok p = false) (firstn 20 (rev ps)).
+Proof. exact poll_error_last_20_failed. Qed.
+Print Assumptions C20_poll_error_needs_20.
+
+Theorem C20_healthy_poll_never_error : forall s : status_state, cur (poll_step s PollHealthy) <> Error.
+Proof. exact healthy_poll_never_error. Qed.
+Print Assumptions C20_healthy_poll_never_error.
+
+Theorem C20_two_healthy_polls : forall s : status_state,
+  cur (poll_step (poll_step s PollHealthy) PollHealthy) = Success.
+Proof. exact two_healthy_polls. Qed.
+Print Assumptions C20_two_healthy_polls.
+
+(* StatusState::default() is StatusState::new() (the monitor loop may reset to either) *)
+Theorem C20_default_is_new : ss_default = ss_new.
+Proof. exact default_is_new. Qed.
+Print Assumptions C20_default_is_new.
+
 (* non-vacuity: a reachable Error state exists (20 failures), 19 do not suffice *)
 Example C20_nonvacuous :
   cur (run_state ss_new (repeat false 20)) = Error /\
